@@ -654,7 +654,8 @@ class CSSMatch(_DocumentNav):
         """Filter the language tags."""
 
         match = True
-        lang_range = RE_WILD_STRIP.sub('-', lang_range).lower()
+        # Collapse explicit wildcards: `-*-` becomes `-`, a trailing `-*` is redundant and is dropped.
+        lang_range = RE_WILD_STRIP.sub(lambda m: '-' if m.group(0).endswith('-') else '', lang_range).lower()
         ranges = lang_range.split('-')
         subtags = lang_tag.lower().split('-')
         length = len(ranges)
